@@ -28,3 +28,25 @@ Definition libc_ref_ok (r : string * string * string) : bool :=
   && mem name ["malloc"; "realloc"; "free"].
 Lemma bridge_libc_refs : forallb libc_ref_ok gen_libc_refs = true.
 Proof. vm_compute. reflexivity. Qed.
+
+(* ---- widths the models rely on ---- *)
+Local Open Scope N_scope.
+(* every counter, size, position and reference count the models treat as a 64-bit size_t / uint64_t
+   is declared with that width *)
+Definition required_fields : list (string * string) := [
+  ("_cbor_stack", "size"); ("_cbor_stack_record", "subitems"); ("cbor_item_t", "refcount");
+  ("_cbor_array_metadata", "allocated"); ("_cbor_array_metadata", "end_ptr");
+  ("_cbor_map_metadata", "allocated"); ("_cbor_map_metadata", "end_ptr");
+  ("_cbor_bytestring_metadata", "length"); ("_cbor_string_metadata", "length"); ("_cbor_string_metadata", "codepoint_count");
+  ("_cbor_tag_metadata", "value"); ("cbor_indefinite_string_data", "chunk_count"); ("cbor_indefinite_string_data", "chunk_capacity");
+  ("cbor_decoder_result", "read"); ("cbor_decoder_result", "required"); ("cbor_error", "position"); ("cbor_load_result", "read") ]%string.
+Definition field_is_64 (sf : string * string) : bool :=
+  existsb (fun g => let '(s, f, b) := g in String.eqb s (fst sf) && String.eqb f (snd sf) && (b =? 64)) gen_fields.
+Lemma bridge_field_widths : forallb field_is_64 required_fields = true.
+Proof. vm_compute. reflexivity. Qed.
+
+(* no implicit integer conversion from a 64-bit type to a narrower one anywhere in the library's .c
+   files: sizes, offsets and counts are never silently truncated (explicit casts are not listed) *)
+Lemma bridge_no_narrowing_from_64 :
+  forallb (fun g => let '(_, _, from, _, _) := g in from <? 64) gen_narrowing = true.
+Proof. vm_compute. reflexivity. Qed.
